@@ -548,4 +548,6 @@ def run(ctx):
     ctx.guard(r7, ctx, prog, eng)
     ctx.guard(r8, ctx, prog, eng, backend)
     ctx.guard(r10, ctx, prog, eng)
+    from rules import C10_replay
+    ctx.guard(C10_replay.r11, ctx, prog)
     return prog
